@@ -10,7 +10,7 @@ use zvcore::world;
 
 #[derive(Clone, Debug)]
 struct Params {
-    /// identity kind per peer: 0 announced 1 byte, 1 announced 255 bytes, 2 auto-assigned
+    /// identity kind per peer: 0 announced 1 byte, 1 announced 255 bytes, 2 auto-assigned, 3 prefix chain (k, kk, kkk), 4 255 bytes differing in the last byte
     ids: Vec<u8>,
     msgs: usize,
     /// the last peer closes both directions before the sends
@@ -22,6 +22,10 @@ fn announced(kind: u8, p: usize) -> Option<Vec<u8>> {
     match kind {
         0 => Some(vec![b'a' + p as u8]),
         1 => Some((0..255).map(|i| if i == 0 { b'A' + p as u8 } else { 1 + ((i * 7 + p) % 250) as u8 }).collect()),
+        // related identities: each a proper prefix of the next one ...
+        3 => Some(vec![b'k'; p + 1]),
+        // ... or 255 bytes that differ in the very last byte only
+        4 => Some((0..255).map(|i| if i == 254 { b'0' + p as u8 } else { b'q' }).collect()),
         _ => None,
     }
 }
@@ -122,7 +126,7 @@ fn scenario(pr: &Params) -> Verdict {
     let end = world::run(e3::HORIZON);
     let mut v = Verdict::default();
     v.truncated = end != world::RunEnd::Quiescent;
-    let what = format!("ROUTER with peers {:?} (0=1-byte id, 1=255-byte id, 2=auto), {} messages each{}", pr.ids, pr.msgs, if pr.last_peer_leaves { ", last peer closes" } else { "" });
+    let what = format!("ROUTER with peers {:?} (0=1-byte id, 1=255-byte id, 2=auto, 3=ids that are prefixes of one another, 4=255-byte ids differing in the last byte), {} messages each{}", pr.ids, pr.msgs, if pr.last_peer_leaves { ", last peer closes" } else { "" });
     for p in world::panics() {
         v.violate("panic", format!("{}: {}", what, p));
     }
@@ -385,9 +389,9 @@ pub fn run(tier: Tier, replay: Option<String>) -> i32 {
         });
     }
     let mut jobs = Vec::new();
-    let mut idsets: Vec<Vec<u8>> = vec![vec![0], vec![2], vec![0, 1], vec![0, 2], vec![2, 2], vec![1, 2]];
+    let mut idsets: Vec<Vec<u8>> = vec![vec![0], vec![2], vec![0, 1], vec![0, 2], vec![2, 2], vec![1, 2], vec![3, 3], vec![4, 4]];
     if tier == Tier::Thorough {
-        idsets.extend([vec![0, 1, 2], vec![2, 2, 2], vec![0, 0, 0]]);
+        idsets.extend([vec![0, 1, 2], vec![2, 2, 2], vec![0, 0, 0], vec![3, 3, 3], vec![4, 4, 4]]);
     }
     for ids in idsets {
         for leaves in [false, true] {
@@ -425,7 +429,7 @@ pub fn run(tier: Tier, replay: Option<String>) -> i32 {
     ck.cov("transitions", ex);
     ck.cov("traces_validated_against_impl", ex);
     ck.cov("exhaustive", ck.coverage.get("e3_scenarios_capped").and_then(|v| v.as_u64()) == Some(0));
-    ck.cov("explanation", "ROUTER socket with 1-3 raw peers whose identities are announced (1 byte / 255 bytes) or auto-assigned, each sending 2 multipart messages (one starting with an empty frame); every schedule within the deviation bound over attach order, delivery order, yield points and deliveries landing inside pipe reads, from 3 default policies. Oracle: the first frame of every recv result is the identity returned by that connection's attach (the announced one when present, else a unique 16-byte value) and the remaining frames are the reference decode of what that peer wrote, per peer in order; then a send to each identity must appear, minus its first frame, on exactly that peer's wire and on no other; unknown identities must fail with no wire growing; a peer that has closed must not cause bytes on any other wire. Reconnect family: a peer with an announced identity leaves and a new connection announces the same identity while the application is not inside recv: the send for that identity must reach the new connection and nothing the stale one. Abandoned-send family: a send to A is dropped while A's connection accepts nothing (once nothing else can happen, or after 1..2 (thorough 4) polls; short and 200 kB messages), then the connection recovers: later sends to A and B must succeed and arrive whole, in order, on exactly the addressed peer's wire. states = distinct observed outcomes; transitions = executions.");
+    ck.cov("explanation", "ROUTER socket with 1-3 raw peers whose identities are announced (1 byte / 255 bytes / each a proper prefix of the next / 255 bytes differing in the last byte only) or auto-assigned, each sending 2 multipart messages (one starting with an empty frame); every schedule within the deviation bound over attach order, delivery order, yield points and deliveries landing inside pipe reads, from 3 default policies. Oracle: the first frame of every recv result is the identity returned by that connection's attach (the announced one when present, else a unique 16-byte value) and the remaining frames are the reference decode of what that peer wrote, per peer in order; then a send to each identity must appear, minus its first frame, on exactly that peer's wire and on no other; unknown identities must fail with no wire growing; a peer that has closed must not cause bytes on any other wire. Reconnect family: a peer with an announced identity leaves and a new connection announces the same identity while the application is not inside recv: the send for that identity must reach the new connection and nothing the stale one. Abandoned-send family: a send to A is dropped while A's connection accepts nothing (once nothing else can happen, or after 1..2 (thorough 4) polls; short and 200 kB messages), then the connection recovers: later sends to A and B must succeed and arrive whole, in order, on exactly the addressed peer's wire. states = distinct observed outcomes; transitions = executions.");
     ck.assume("single-frame ROUTER sends are outside the statement and not issued");
     ck.conclude()
 }
